@@ -12,6 +12,7 @@ C10, components — "each component is evaluated on the post-step state and on t
 import PrimaiteModel.Lemmas.RewardExc
 import PrimaiteModel.Lemmas.RewardState
 import PrimaiteModel.Gen.Reward
+set_option linter.unusedSimpArgs false
 namespace Primaite.Reward
 open Primaite.RewardGraph Primaite.Reward.Py
 
@@ -21,6 +22,19 @@ attribute [local simp] runCalculate exec eval assignTo List.lookup toKeys toVal 
 
 @[simp] theorem truthy_bool (b : Bool) : (PyVal.bool b).truthy = b := rfl
 @[simp] theorem pyEq_str_str (a b : String) : PyVal.pyEq (.str a) (.str b) = (a == b) := by simp [PyVal.pyEq]
+/-- `x == k` for an int literal `k`: `x` is a number (bool / int / float) of that value -/
+theorem pyEq_int_iff (x : PyVal) (k : Int) : x.pyEq (.int k) = true ↔ x.asNum = some (k : Rat) := by
+  cases x <;> simp [PyVal.pyEq, PyVal.asNum]
+
+theorem pyEq_int_exclusive {x : PyVal} {j k : Int} (hjk : j ≠ k) (h : x.pyEq (.int j) = true) : x.pyEq (.int k) = false := by
+  cases hk : x.pyEq (.int k) with
+  | false => rfl
+  | true =>
+    rw [pyEq_int_iff] at h hk
+    rw [h] at hk
+    have : (j : Rat) = (k : Rat) := Option.some.inj hk
+    exact absurd (Rat.intCast_inj.mp this) hjk
+
 @[simp] theorem pyIs_notPresent (x : PyVal) : pyIs x .notPresent = x.isNotPresent := by cases x <;> rfl
 
 /-- the environment `DatabaseFileIntegrity.calculate` runs in -/
@@ -43,10 +57,11 @@ theorem C10_gen_calc_file (s : SimState) (it : Item) (n fo fi : Name) (loc : PyV
     | some h =>
       simp [healthValue]
       by_cases h2 : h.pyEq (.int 2) = true
-      · simp [h2, toVal]
+      · have h1 : h.pyEq (.int 1) = false := pyEq_int_exclusive (by decide) h2
+        simp [h2, h1]
       · by_cases h1 : h.pyEq (.int 1) = true
-        · simp [h2, h1, toVal]
-        · simp [h2, h1, toVal]
+        · simp [h2, h1]
+        · simp [h2, h1]
 
 /-- `DummyReward.calculate` returns 0.0 whatever it is given -/
 theorem C10_gen_calc_dummy (env : Env) : (runCalculate Gen.Reward.calc_DummyReward env).map (·.value) = .ok 0 := by
